@@ -123,3 +123,33 @@ def symbolic_groups(real, prefix="", absent=()):
       core.assume(v < 10 ** hi)
     groups[name] = SymDigits(v, prefix + name)
   return groups, info
+
+
+_NOMATCH = object()
+
+
+class StubReModule:
+  """stands for the `re` module inside one repository module: compile(p) gives a StubRegex for the patterns listed in
+  `table` = {pattern string: {subject: groups-dict | None (the pattern does not match that subject)}}"""
+
+  def __init__(self, table):
+    self._table = table
+
+  def compile(self, pattern, flags=0):
+    real = re.compile(pattern, flags)
+    ph = self._table.get(pattern)
+    if ph is None:
+      return real
+    return _StubRegex2(real, ph)
+
+  def __getattr__(self, n):
+    return getattr(re, n)
+
+
+class _StubRegex2(StubRegex):
+  def _m(self, how, s, *a):
+    key = s.strip("\r\n") if isinstance(s, str) else s
+    if key in self._ph:
+      g = self._ph[key]
+      return None if g is None else StubMatch(g)
+    return getattr(self._real, how)(s, *a)
